@@ -102,7 +102,8 @@ func Copy(ctx context.Context, srcRoot, src, dstRoot, dst string, opts ...Opt) e
 		modeSet = &ms
 	}
 
-	dst, err := fs.RootPath(dstRoot, filepath.Clean(dst))
+	dstArg := filepath.Clean(dst)
+	dst, err := fs.RootPath(dstRoot, dstArg)
 	if err != nil {
 		return err
 	}
@@ -126,6 +127,12 @@ func Copy(ctx context.Context, srcRoot, src, dstRoot, dst string, opts ...Opt) e
 
 	for _, src := range srcs {
 		srcFollowed, err := rootPath(srcRoot, src, ci.FollowLinks)
+		if err != nil {
+			return err
+		}
+		// an earlier source may have put a symlink at the destination:
+		// resolve it again inside the root instead of writing through it
+		dst, err := fs.RootPath(dstRoot, dstArg)
 		if err != nil {
 			return err
 		}
